@@ -258,9 +258,20 @@ func evalCond(n *condNode, log []cbRec, now time.Time, st *condStats) int {
 
 // ---------- controlled breaker driver ----------
 
-type countEffect struct{ n atomic.Int64 }
+// countEffect counts its executions; with block set, every execution then stays busy until the channel is closed (a
+// webhook whose receiver does not answer).
+type countEffect struct {
+	n     atomic.Int64
+	block <-chan struct{}
+}
 
-func (e *countEffect) Exec() error { e.n.Add(1); return nil }
+func (e *countEffect) Exec() error {
+	e.n.Add(1)
+	if e.block != nil {
+		<-e.block
+	}
+	return nil
+}
 
 // cbHangTimeout: how long the driver waits for a request to reach the handler / the fallback / to return before it
 // calls it a hang (typical: microseconds). After the first hang of a run the remaining waits are cut short.
@@ -281,6 +292,7 @@ type cbConfig struct {
 	Fallback, Recovery, CheckPeriod time.Duration
 	Cond                            *condNode
 	FormatLogs                      bool
+	SlowEffects                     bool // side effects that do not finish before the next transition
 }
 
 func reqID(req *http.Request) int {
@@ -326,6 +338,9 @@ func newCBDriver(cfg cbConfig) (*cbDriver, error) {
 		return nil, err
 	}
 	d.cb = cb
+	// another breaker of the same process, configured afterwards with quite different durations: breakers are independent
+	_, _ = cbreaker.New(http.HandlerFunc(func(http.ResponseWriter, *http.Request) {}), "NetworkErrorRatio() > 0.5",
+		cbreaker.FallbackDuration(17*time.Millisecond), cbreaker.RecoveryDuration(3*time.Nanosecond), cbreaker.CheckPeriod(time.Hour))
 	return d, nil
 }
 
@@ -507,6 +522,11 @@ func cbRun(r *rand.Rand, cfg cbConfig, nsteps int, choose cbStepChooser, belongs
 	d, err := newCBDriver(cfg)
 	if err != nil {
 		return st, nil, nil, err
+	}
+	if cfg.SlowEffects {
+		busy := make(chan struct{})
+		defer close(busy)
+		d.onTripped.block, d.onStandby.block = busy, busy
 	}
 	m := &cbModel{cfg: cfg, state: "standby"}
 	var script []string
@@ -847,5 +867,6 @@ func genCBConfig(r *rand.Rand, depth int) cbConfig {
 		CheckPeriod: pick(r, []time.Duration{0, 100 * time.Millisecond, time.Second}),
 		Cond:        genCond(r, depth),
 		FormatLogs:  r.IntN(2) == 0,
+		SlowEffects: r.IntN(4) == 0,
 	}
 }
